@@ -331,7 +331,11 @@ def build(r, log):
         return Call(FUNCS[r[1]], args=args, kwargs=kwargs)
     if kind == 'invoke':
         inv = Invoke(FUNCS[r[1]])
-        for op in r[2]:
+        # r[3] (optional): further builder calls made on the finished spec whose results are thrown away --
+        # "every call returns a new spec", so they must leave the spec they were derived from as it was
+        for n_op, op in enumerate(list(r[2]) + list(r[3] if len(r) > 3 else [])):
+            if n_op == len(r[2]):
+                kept = inv
             if op[0] == 'C':
                 inv = inv.constants(*[tg.build(a).obj for a in op[1]], **dict((k, tg.build(a).obj) for k, a in op[2]))
             elif op[0] == 'S':
@@ -343,6 +347,8 @@ def build(r, log):
                 if op[2] is not None:
                     kw['kwargs'] = build(op[2], log)
                 inv = inv.star(**kw)
+        if len(r) > 3 and r[3]:
+            return kept
         return inv
     if kind == 'ref':
         return Ref(r[1], build(r[2], log))
@@ -511,6 +517,11 @@ class Gen(object):
                         if owned:
                             kwspec = ['path', d(st.sampled_from(owned))]
                     ops.append(['*', ['val', ['list', [['i', 1], ['i', 2]]]] if d(st.booleans()) else None, kwspec])
+            if d(st.sampled_from(range(3))) == 0:
+                later = [['C', [d(st.sampled_from(LITS))], [[kw, ['s', 'later']] for kw in d(st.lists(st.sampled_from(['p', 'q', 'r']), min_size=1, max_size=2, unique=True))]]]
+                if d(st.booleans()):
+                    later.append(['S', [], [[kw, ['val', ['s', 'later-spec']]] for kw in d(st.lists(st.sampled_from(['p', 'r']), min_size=1, max_size=2, unique=True))]])
+                return ['invoke', 'collect', ops, later]
             return ['invoke', 'collect', ops]
         if k == 15:
             # a chain nested directly inside a chain, with SKIP / STOP produced inside the inner one:
@@ -666,6 +677,8 @@ def check(recipe, ctx):
     ctx.label('exp-' + exp[0])
     for k in ks:
         ctx.label('has-' + k)
+    if "'later'" in repr(recipe):
+        ctx.label('invoke-derived-later')
     had_skipstop = "'skip'" in text or "'stop'" in text
     if r[0] in ('tuple', 'pipe') and any(x[0] in ('tuple', 'pipe') and ("'stop'" in repr(x) or "'skip'" in repr(x)) for x in r[1]):
         ctx.label('nested-chain-sentinel')
@@ -742,7 +755,7 @@ def enum_vals(tier):
 SUBS = [
     Sub('auto', check, gen=gen, quick=5000, thorough=20000,
         floors={'exp-ok': 0.5, 'exp-err': 0.03, 'has-coalesce': 0.1, 'has-dict': 0.15, 'has-list': 0.1,
-                'has-invoke': 0.03, 'has-ref': 0.03, 'nested-chain-sentinel': 0.02, 'composition-checked': 0.01}),
+                'has-invoke': 0.03, 'invoke-derived-later': 0.004, 'has-ref': 0.03, 'nested-chain-sentinel': 0.02, 'composition-checked': 0.01}),
     Sub('val-identity', check_val_identity, enum=enum_vals),
     fuzzrun.fuzz_sub('fuzz-auto', 'hyp:c03:auto', runs=30000, campaigns=4, replay_sub='auto'),
 ]
